@@ -16,24 +16,29 @@ FUNCTIONS = ["wannierberri.system.system_R.System_R.reorder/spin_block2interlace
 BOUNDS = dict(quick=dict(num_wann="2..3 (every permutation), 2 and 6 (block<->interlace; 6 is the smallest size where the two directions differ)", R_sets="3..5 R-vectors", matrices="Ham, AA", derivatives="Xbar der 0..2", data="symbolic complex X(-R)=X(R)^+",
                          centres="symbolic", k="symbolic: one free phase per R-vector", gauge="U(k) = identity and U(k) an arbitrary symbolic complex matrix",
                          rotation="W = diag(e^ia,e^ib) Givens(t) diag(1,e^ic) with symbolic angles on a co-centred pair, num_wann 2..3"),
-              thorough=dict(num_wann="2..4 (every permutation), 2, 4, 6 (block<->interlace)", R_sets="3..7 R-vectors", matrices="Ham, AA", derivatives="Xbar der 0..2", data="symbolic complex",
-                            centres="symbolic", k="symbolic, 2 k-points", gauge="as quick", rotation="as quick, num_wann 2..4"))
+              thorough=dict(num_wann="2..4 (every permutation), 5..6 (cycles, reversal, mixed), 2..8 (block<->interlace)", R_sets="3..13 R-vectors",
+                            matrices="Ham, AA, BB, CC, SS, OO, SH (one cartesian index), GG, FF, SA, SHA, SR, SHR (two) and the matrices Data_K_R derives from them with the shift-dependent "
+                                     "derivative: rotAA, rotAAab, CCab_antisym", derivatives="Xbar der 0..2 (0..1 for the 13-matrix set at num_wann 3 and for num_wann >= 5)", data="symbolic complex",
+                            centres="symbolic", k="symbolic, 1..2 k-points", gauge="as quick",
+                            compositions="reorder o reorder (o reorder), block2interlace / interlace2block composed with reorder and with themselves (caches filled between the steps), "
+                                         "rotation of a co-centred pair followed by System_R.reorder (T = W P), num_wann 2..5"))
 EXPLANATION = ("A System_R with symbolic matrices and symbolic centres is reordered by the real System_R.reorder / spin_block2interlace (or rotated by a unitary built from unit-circle atoms "
                "on a pair of co-centred Wannier functions); the real Data_K_R.Xbar (R_to_k with the shift-dependent derivative factors) is evaluated before and after.  z3 decides "
                "Xbar'(name,der) == P^T Xbar(name,der) P (resp. W^+ Xbar W) for der<=2, that the Hamiltonian-gauge quantities U'^+ Xbar' U' with U' = P^T U (W^+ U) are unchanged for an "
                "arbitrary symbolic U(k), and that Xbar equals the harness's own Fourier sum with the factors i(R + t_b - t_a).")
 ASSUMPTIONS = ["the rotated Wannier functions share their centre (statement of the property)", "U(k) of the transformed system is P^T U(k) (resp. W^+ U(k)): eigenvectors of the transformed H(k)"]
 OUTSIDE = ["integrated calculator outputs and tabulations: they are functions of the Hamiltonian-gauge quantities U^+ Xbar U and of E(k), which are shown unchanged; the calculators themselves are "
-           "covered by C04 and not re-run here", "numerical eigh (E_K, UU_K)", "matrices other than Ham / AA (all go through the same R_to_k path)", "sizes above the stated bounds"]
+           "covered by C04 and not re-run here", "numerical eigh (E_K, UU_K)", "quick tier: matrices other than Ham / AA (the thorough tier runs all thirteen kinds and the derived rotAA, rotAAab, CCab_antisym)", "sizes above the stated bounds"]
 STUBS = ["grid stand-in with FFT=(1,1,1) for Data_K_R(k_list=...)", "UU_K put into the Data_K cache (identity or symbolic matrix; no eigh)"]
 
 LAT = np.array([[1.0, 0, 0], [0.25, 1.5, 0], [0, 0.5, 2.0]])
 MODS = [SR, RV, FF, UT, DKR, DK]
-CART = dict(Ham=(), AA=(3,))
-HERM = dict(Ham=False, AA=True)     # the `hermitian` flag Data_K_R.Xbar passes to R_to_k
+CART = dict(Ham=(), AA=(3,), BB=(3,), CC=(3,), SS=(3,), OO=(3,), SH=(3,), GG=(3, 3), FF=(3, 3), SA=(3, 3), SHA=(3, 3), SR=(3, 3), SHR=(3, 3))
+HERM = {key: key in ("AA", "SS", "OO") for key in CART}     # the `hermitian` flag Data_K_R.Xbar passes to R_to_k
 RSETS = dict(A=[(0, 0, 0), (1, 0, 0), (-1, 0, 0)],
              B=[(0, 0, 0), (0, 1, 0), (0, -1, 0), (1, 0, 0), (-1, 0, 0)],
-             E=[(0, 0, 0), (1, 1, 0), (-1, -1, 0), (0, 0, 1), (0, 0, -1), (1, 0, 0), (-1, 0, 0)])
+             E=[(0, 0, 0), (1, 1, 0), (-1, -1, 0), (0, 0, 1), (0, 0, -1), (1, 0, 0), (-1, 0, 0)],
+             F=[(0, 0, 0), (1, 0, 0), (-1, 0, 0), (0, 1, 0), (0, -1, 0), (0, 0, 1), (0, 0, -1), (1, 1, 0), (-1, -1, 0), (1, -1, 1), (-1, 1, -1), (2, 0, 0), (-2, 0, 0)])
 GRID = SimpleNamespace(FFT=np.array([1, 1, 1]))
 
 
@@ -107,16 +112,17 @@ def perm_matrix(p):
     return P
 
 
-def expected_mapping(spec):
+def expected_mapping(spec, kind=None, perm=None):
     nb = spec["nb"]
-    if spec["kind"] == "perm":
-        return list(spec["perm"])
+    kind = kind or spec["kind"]
+    if kind == "perm":
+        return list(perm if perm is not None else spec["perm"])
     nw2 = nb // 2
-    if spec["kind"] == "block2interlace":        # new 2i <- old i (first block), new 2i+1 <- old i + nb/2
+    if kind == "block2interlace":        # new 2i <- old i (first block), new 2i+1 <- old i + nb/2
         return [(i // 2) + (i % 2) * nw2 for i in range(nb)]
-    if spec["kind"] == "interlace2block":        # new i <- old 2i, new nb/2 + i <- old 2i+1
+    if kind == "interlace2block":        # new i <- old 2i, new nb/2 + i <- old 2i+1
         return [2 * i for i in range(nw2)] + [2 * i + 1 for i in range(nw2)]
-    raise ValueError(spec["kind"])
+    raise ValueError(kind)
 
 
 def common_checks(rec, spec, A, k, xp, ref_sys, new_sys, T, what):
@@ -126,7 +132,7 @@ def common_checks(rec, spec, A, k, xp, ref_sys, new_sys, T, what):
     UUn = xp.stack([xp.conj(T.T) @ UU[i] for i in range(len(UU))])
     h0, h1 = datak(ref_sys, k, UU), datak(new_sys, k, UUn)
     rec.eq(f"{what}: H'(k) == T^+ H(k) T", d1.HH_K, rot(T, d0.HH_K, xp), key=f"{what}: H(k) not covariant")
-    for key in spec["keys"]:
+    for key in list(spec["keys"]) + list(spec.get("derived", [])):          # derived: rotAA, rotAAab, CCab_antisym are built by Data_K_R from AA / CC with the shift-dependent derivative
         for der in range(spec["der"] + 1):
             rec.eq(f"{what}: Xbar'({key},{der}) == T^+ Xbar({key},{der}) T", d1.Xbar(key, der), rot(T, d0.Xbar(key, der), xp), key=f"{what}: Xbar(der={min(der, 1)}{'+' if der else ''}) not covariant")
             if der <= spec["hder"]:
@@ -139,20 +145,26 @@ def common_checks(rec, spec, A, k, xp, ref_sys, new_sys, T, what):
 def ob_perm(rec, spec, A, k, xp):
     nb, iR = spec["nb"], RSETS[spec["R"]]
     mats = {key: A["X_" + key] for key in spec["keys"]}
-    p = expected_mapping(spec)
+    ops = spec.get("ops") or [[spec["kind"], spec.get("perm")]]          # a single operation, or a composition applied one after the other
+    p = list(range(nb))
+    for kind_, perm_ in ops:
+        m = expected_mapping(spec, kind_, perm_)
+        p = [p[i] for i in m]                       # X''[a,b] = X'[m[a],m[b]] = X[p[m[a]],p[m[b]]]
     P = perm_matrix(p)
     ref = mk_system(nb, iR, A["c"], mats)
     S = mk_system(nb, iR, A["c"], mats)
     S.rvec.set_fft_R_to_k(NK=None, num_wann=nb, k_list=k)
     pre = S.rvec.R_to_k(S.get_R_mat("Ham").copy(), der=1, hermitian=False)      # fills cRvec_shifted & co on the system's own Rvectors
     _ = S.wannier_centers_red
-    if spec["kind"] == "perm":
-        S.reorder(list(p))
-    elif spec["kind"] == "block2interlace":
-        S.spin_block2interlace()
-    else:
-        S.spin_interlace2block()
-    what = "reorder" if spec["kind"] == "perm" else spec["kind"]
+    for kind_, perm_ in ops:
+        if kind_ == "perm":
+            S.reorder(list(perm_))
+        elif kind_ == "block2interlace":
+            S.spin_block2interlace()
+        else:
+            S.spin_interlace2block()
+        _ = S.rvec.cRvec_shifted, S.wannier_centers_red            # caches filled between the steps
+    what = ("reorder" if spec["kind"] == "perm" else spec["kind"]) if len(ops) == 1 else "composition " + " then ".join(o[0] for o in ops)
     for key in spec["keys"]:
         rec.eq(f"{what}: {key}'(R)[a,b] == {key}(R)[p[a],p[b]]", S.get_R_mat(key), A["X_" + key][:, p][:, :, p], key=f"{what}: R-matrices not permuted on both band axes")
     rec.eq(f"{what}: centres'[a] == centres[p[a]]", S.wannier_centers_cart, A["c"].dot(LAT)[p], key=f"{what}: centres not permuted")
@@ -163,7 +175,7 @@ def ob_perm(rec, spec, A, k, xp):
     d0, d1 = common_checks(rec, spec, A, k, xp, ref, S, P, what)
     rec.eq(f"{what}: system.rvec.R_to_k(Ham, der=1) on the system's own Rvectors (caches dropped)", S.rvec.R_to_k(S.get_R_mat("Ham").copy(), der=1, hermitian=False), pre[:, p][:, :, p],
            key=f"{what}: stale Rvectors caches")
-    if spec["kind"] == "perm":          # Rvectors.reorder on its own (System_R.reorder drops the caches a second time)
+    if spec["kind"] == "perm" and len(ops) == 1:          # Rvectors.reorder on its own (System_R.reorder drops the caches a second time)
         rv = RV.Rvectors(lattice=LAT, iRvec=np.array(iR), shifts_left_red=A["c"].copy())
         cs = rv.cRvec_shifted
         rv.reorder(list(p))
@@ -173,7 +185,7 @@ def ob_perm(rec, spec, A, k, xp):
             for der in range(spec["der"] + 1):
                 rec.eq(f"Xbar({key},{der}) == sum_R e^(ikR) X_ab(R) prod i(R + t_b - t_a)", d0.Xbar(key, der), fourier_der(iR, A["X_" + key], k, A["c"], der, HERM[key], xp),
                        key="Xbar derivative factors are not i(R + t_b - t_a)")
-    if spec["kind"] != "perm":          # there and back again
+    if spec["kind"] != "perm" and len(ops) == 1:          # there and back again
         (S.spin_interlace2block if spec["kind"] == "block2interlace" else S.spin_block2interlace)()
         for key in spec["keys"]:
             rec.eq(f"{what} then back: {key}(R) restored", S.get_R_mat(key), A["X_" + key], key="spin_block2interlace / spin_interlace2block are not inverse")
@@ -196,10 +208,14 @@ def ob_rotate(rec, spec, A, k, xp):
     mats = {key: A["X_" + key] for key in spec["keys"]}
     ref = mk_system(nb, iR, cred, mats)
     new = mk_system(nb, iR, cred, {key: rot(W, X, xp) for key, X in mats.items()})
-    common_checks(rec, spec, A, k, xp, ref, new, W, "rotation of a co-centred pair")
+    if spec.get("then_perm"):           # composition: the rotated system is reordered by the real code, T = W P
+        new.reorder(list(spec["then_perm"]))
+        common_checks(rec, spec, A, k, xp, ref, new, W @ perm_matrix(spec["then_perm"]), "rotation of a co-centred pair then reorder")
+    else:
+        common_checks(rec, spec, A, k, xp, ref, new, W, "rotation of a co-centred pair")
 
 
-KIND = dict(perm=ob_perm, block2interlace=ob_perm, interlace2block=ob_perm, rotate=ob_rotate)
+KIND = dict(compose=ob_perm, perm=ob_perm, block2interlace=ob_perm, interlace2block=ob_perm, rotate=ob_rotate)
 
 
 def angle_of(env, x):
@@ -234,16 +250,35 @@ def cases(tier, seed):
     for nb in ((2, 3) if q else (2, 3, 4)):
         for ip, p in enumerate(itertools.permutations(range(nb))):
             R = ("A", "B", "E")[ip % (2 if q else 3)]
-            keys = ["Ham", "AA"] if nb < 4 else ["Ham"]
-            spec = dict(kind="perm", nb=nb, R=R, keys=keys, perm=list(p), der=2, hder=(1 if nb > 2 else 2) if not q else (0 if nb > 2 else 1), nk=nk, oracle=ip == 0)
-            out.append(Case(f"reorder nb={nb} perm={list(p)} R={R}", case_run, dict(spec=spec), timeout=1500))
+            keys = ["Ham", "AA"]          # (num_wann = 4 occurs in the thorough tier only)
+            spec = dict(kind="perm", nb=nb, R=R, keys=keys, perm=list(p), der=2, hder=({2: 2, 3: 1, 4: 0}[nb]) if not q else (0 if nb > 2 else 1), nk=nk if nb < 4 else 1, oracle=ip == 0)
+            out.append(Case(f"reorder nb={nb} perm={list(p)} R={R}", case_run, dict(spec=spec), timeout=3000))
     for nb in ((2, 6) if q else (2, 4, 6)):
         for kind in ("block2interlace", "interlace2block"):
             spec = dict(kind=kind, nb=nb, R="A", keys=["Ham", "AA"] if nb < 4 else ["Ham"], der=2 if nb < 6 else 1, hder=1 if nb < 4 else 0, nk=nk)
-            out.append(Case(f"{kind} nb={nb}", case_run, dict(spec=spec), timeout=1500))
+            out.append(Case(f"{kind} nb={nb}", case_run, dict(spec=spec), timeout=3000))
     for nb, pair in ((2, (0, 1)), (3, (0, 2)), (3, (1, 2))) + (() if q else ((4, (1, 3)),)):
         spec = dict(kind="rotate", nb=nb, R="A" if nb > 2 else "B", keys=["Ham", "AA"] if nb < 4 else ["Ham"], pair=list(pair), der=2 if nb < 4 else 1, hder=0 if nb > 2 else 1, nk=1)
-        out.append(Case(f"rotate nb={nb} pair={list(pair)}", case_run, dict(spec=spec), timeout=1500))
+        out.append(Case(f"rotate nb={nb} pair={list(pair)}", case_run, dict(spec=spec), timeout=3000))
+    if not q:
+        allk = ["Ham", "AA", "BB", "CC", "SS", "OO", "SH", "GG", "FF", "SA", "SHA", "SR", "SHR"]
+        for nb, p, R, keys, derived, der in ((2, [1, 0], "B", allk, ["rotAA", "rotAAab", "CCab_antisym"], 2), (3, [2, 0, 1], "A", allk, [], 1), (3, [0, 2, 1], "B", ["Ham", "BB", "SS", "OO", "SH", "FF", "SHA", "SR", "SHR"], ["rotAAab"][:0], 2),
+                                                (5, [3, 0, 4, 2, 1], "B", ["Ham", "AA"], ["rotAA"], 1), (4, [2, 3, 0, 1], "E", ["Ham", "AA", "CC", "SS", "SA"], ["CCab_antisym"], 1), (3, [1, 0, 2], "E", ["Ham", "AA", "CC", "GG", "SA"], ["rotAA", "CCab_antisym"], 2),
+                                                (2, [1, 0], "F", ["Ham", "AA", "SS", "FF"], ["rotAA"], 2), (4, [3, 1, 0, 2], "B", ["Ham", "AA", "BB", "GG"], ["rotAA"], 1),
+                                                (5, [1, 2, 3, 4, 0], "A", ["Ham", "AA"], [], 1), (5, [4, 3, 2, 1, 0], "B", ["Ham"], [], 2), (5, [0, 3, 2, 1, 4], "E", ["Ham"], [], 1), (5, [2, 4, 1, 0, 3], "A", ["Ham"], [], 1),
+                                                (6, [5, 0, 4, 1, 3, 2], "A", ["Ham"], [], 1), (3, [1, 2, 0], "F", ["Ham", "AA"], [], 2), (4, [1, 0, 3, 2], "F", ["Ham"], [], 2)):
+            spec = dict(kind="perm", nb=nb, R=R, keys=keys, derived=derived, perm=p, der=der, hder=0 if (nb > 2 or len(keys) > 5) else 1, nk=1, oracle=nb <= 3 and len(keys) <= 5)
+            out.append(Case(f"reorder nb={nb} perm={p} R={R} matrices={'+'.join(keys)} derived={'+'.join(derived) or '-'}", case_run, dict(spec=spec), timeout=3000))
+        comps = [(3, [["perm", [1, 2, 0]], ["perm", [0, 2, 1]]]), (4, [["perm", [3, 0, 2, 1]], ["perm", [1, 3, 0, 2]], ["perm", [2, 1, 3, 0]]]), (4, [["block2interlace", None], ["perm", [2, 0, 3, 1]]]),
+                 (4, [["perm", [1, 0, 3, 2]], ["interlace2block", None]]), (6, [["block2interlace", None], ["block2interlace", None]]), (6, [["interlace2block", None], ["perm", [5, 3, 1, 4, 2, 0]], ["block2interlace", None]]),
+                 (8, [["block2interlace", None]]), (8, [["interlace2block", None]]), (6, [["perm", [1, 2, 3, 4, 5, 0]], ["interlace2block", None]])]
+        for nb, ops in comps:
+            spec = dict(kind="compose" if len(ops) > 1 else ops[0][0], nb=nb, R="A" if nb > 4 else "B", keys=["Ham", "AA"] if nb < 6 else ["Ham"], ops=ops, der=2 if nb < 6 else 1, hder=0, nk=1)
+            out.append(Case(f"composition nb={nb} " + " then ".join(o[0] + (str(o[1]) if o[1] else "") for o in ops), case_run, dict(spec=spec), timeout=3000))
+        for nb, pair, tp, keys in ((2, (0, 1), [1, 0], ["Ham", "AA"]), (3, (0, 2), [2, 0, 1], ["Ham", "AA"]), (3, (1, 2), [0, 2, 1], ["Ham", "AA", "GG"]), (4, (0, 3), [1, 3, 0, 2], ["Ham"]), (4, (2, 3), None, ["Ham", "AA"]),
+                                   (5, (1, 4), [4, 0, 3, 1, 2], ["Ham"]), (3, (0, 1), None, ["Ham", "AA", "BB", "SS", "GG", "SA"])):
+            spec = dict(kind="rotate", nb=nb, R="B" if nb < 4 else "A", keys=keys, pair=list(pair), then_perm=tp, der=2 if (nb < 4 and len(keys) < 4) else 1, hder=0, nk=1)
+            out.append(Case(f"rotate nb={nb} pair={list(pair)} matrices={'+'.join(keys)} then reorder {tp}", case_run, dict(spec=spec), timeout=3000))
     return out
 
 
